@@ -5,6 +5,8 @@
 set -eu
 R="$1"; cd "$(dirname "$0")/.."
 case "$PWD" in /verif) echo "refusing to relocate /verif itself"; exit 1;; esac
-sed -i "s|/repo/|$R/|g" check setup.sh harness/Cargo.toml
-grep -l "/repo/" harness/fuzz/Cargo.toml 2>/dev/null && sed -i "s|/repo/|$R/|g" harness/fuzz/Cargo.toml
+# Only the references to the repository itself (not `target/repo/...`, the build directory).
+sed -i "s|--manifest-path /repo/|--manifest-path $R/|g" check setup.sh
+sed -i "s|path = \"/repo/|path = \"$R/|g" harness/Cargo.toml
+grep -q "\"/repo/" harness/fuzz/Cargo.toml 2>/dev/null && sed -i "s|path = \"/repo/|path = \"$R/|g" harness/fuzz/Cargo.toml
 echo "relocated to $R"
